@@ -33,6 +33,51 @@ def _loops(node):
     return [n for n in A.walk_no_nested(node) if isinstance(n, ast.For)]
 
 
+def _query1_set_builder(ctx, m) -> Optional[List[Ob]]:
+    """find_head in set-builder form:  T = {jt for b in graph.values() for jt in b.jump_targets};
+    H = [n for n in graph if n not in T];  exactly one element of H is returned"""
+    out: List[Ob] = []
+    where = ctx.where(m)
+    GR = ("self.graph.keys()", "self.graph", "self.graph.values()", "self.graph.items()", "self")
+    T = H = None
+    t_attr = None
+    for s_ in A.walk_no_nested(m.node):
+        if not (isinstance(s_, (ast.Assign, ast.AnnAssign)) and s_.value is not None):
+            continue
+        tg = s_.targets[0] if isinstance(s_, ast.Assign) else s_.target
+        v = s_.value
+        if isinstance(v, ast.Call) and isinstance(v.func, ast.Name) and v.func.id in ("set", "frozenset", "list", "tuple", "sorted") and len(v.args) == 1:
+            v = v.args[0]
+        if not isinstance(tg, ast.Name) or not isinstance(v, (ast.SetComp, ast.ListComp, ast.GeneratorExp)):
+            continue
+        gens = v.generators
+        if len(gens) == 2 and _strip_order(gens[0].iter) in GR and isinstance(gens[1].iter, ast.Attribute) and gens[1].iter.attr in ("jump_targets", "_jump_targets") and A.unparse(v.elt) == A.unparse(gens[1].target) and not gens[0].ifs and not gens[1].ifs:
+            T, t_attr = tg.id, gens[1].iter.attr
+        elif len(gens) == 1 and _strip_order(gens[0].iter) in GR[:2] + ("self",) and A.unparse(v.elt) == A.unparse(gens[0].target) and len(gens[0].ifs) == 1:
+            c = gens[0].ifs[0]
+            if isinstance(c, ast.Compare) and len(c.ops) == 1 and isinstance(c.ops[0], ast.NotIn) and A.unparse(c.left) == A.unparse(gens[0].target):
+                H = (tg.id, A.unparse(c.comparators[0]), s_)
+    if T is None or H is None or H[1] != T:
+        return None
+    out.append(ok("QUERY-1", m.qualname, "candidates are all block names", where, f"{H[0]} ranges over every block name", nontrivial=False))
+    key = "every forward target of every block is removed"
+    if t_attr == "jump_targets":
+        out.append(ok("QUERY-1", m.qualname, key, where, f"{T} = all forward targets of all blocks; a name is kept iff it is not in {T}"))
+    else:
+        out.append(bad("QUERY-1", m.qualname, key, where, "declared back edges count as predecessors (raw _jump_targets): a loop header that is the entry of a region is no longer its head"))
+    key = "exactly one head"
+    asserts = [a for a in A.walk_no_nested(m.node) if isinstance(a, ast.Assert) and f"len({H[0]}) == 1" in A.unparse(a.test)]
+    unp = [a for a in A.walk_no_nested(m.node) if isinstance(a, ast.Assign) and isinstance(a.targets[0], (ast.Tuple, ast.List)) and len(a.targets[0].elts) == 1 and A.unparse(a.value) == H[0]]
+    rets = [r for r in A.walk_no_nested(m.node) if isinstance(r, ast.Return) and r.value is not None]
+    if (asserts or unp) and rets:
+        out.append(ok("QUERY-1", m.qualname, key, where, "uniqueness checked (assert / single-target unpack), the remaining name returned"))
+    elif rets:
+        out.append(bad("QUERY-1", m.qualname, key, where, "a remaining candidate is returned without checking that it is the only one"))
+    else:
+        out.append(unresolved("QUERY-1", m.qualname, key, where, "cannot see what find_head returns"))
+    return out
+
+
 @rule("QUERY-1", 3, "the head is computed as: all block names, minus every (forward) jump target of every block; exactly one must remain")
 def query1(ctx) -> List[Ob]:
     out: List[Ob] = []
@@ -44,6 +89,9 @@ def query1(ctx) -> List[Ob]:
             cands = s.targets[0].id
     key = "candidates are all block names"
     if cands is None:
+        sb = _query1_set_builder(ctx, m)
+        if sb is not None:
+            return sb
         out.append(unresolved("QUERY-1", m.qualname, key, where, "find_head is not written in the recognised form (candidate set of all names)"))
         return out
     out.append(ok("QUERY-1", m.qualname, key, where, f"{cands} = set(all names)", nontrivial=False))
@@ -372,9 +420,14 @@ def query4(ctx) -> List[Ob]:
                 brk = st is not None and stmts.index(st) + 1 < len(stmts) and isinstance(stmts[stmts.index(st) + 1], ast.Break)
                 in_else = any(isinstance(s, ast.Expr) and s.value is regs[0] for s in inner_for.orelse)
                 shape_ok = bool(brk and in_else and any(c is z for z in ast.walk(n_if.test)))
-            elif n_if is not None and any(c is z for z in ast.walk(n_if.test)):
-                # if any(...): append(None) else: append(region)
-                shape_ok = any(isinstance(s, ast.Expr) and s.value is regs[0] for s in n_if.orelse) and isinstance(n_if.test, ast.Call) and isinstance(n_if.test.func, ast.Name) and n_if.test.func.id == "any"
+            elif n_if is not None:
+                # if any(...): append(None) else: append(region)     (the test may be kept in a local first)
+                from .common import see_through
+
+                tst = see_through(ctx, fn, n_if.test) if isinstance(n_if.test, ast.Name) else n_if.test
+                if tst is not None and any(c is z for z in ast.walk(tst)):
+                    in_else = any(isinstance(s, (ast.Expr,)) and s.value is regs[0] for s in n_if.orelse) or any(regs[0] is z for s in n_if.orelse for z in ast.walk(s))
+                    shape_ok = in_else and isinstance(tst, ast.Call) and isinstance(tst.func, ast.Name) and tst.func.id == "any"
         if shape_ok:
             out.append(ok("QUERY-4", fn.qualname, key2, ctx.where(fn, nones[0]), "None once when some other successor reaches the arm (search stops), else (arm, members) once"))
         else:
@@ -504,6 +557,14 @@ def query5(ctx) -> List[Ob]:
         where = ctx.where(fn)
         gparam = fn.params[0].arg
         gtexts = {f"{gparam}.graph", f"{gparam}.graph.keys()", gparam, f"{gparam}.graph.items()"}
+        items_texts = {f"{gparam}.graph.items()"}
+        # a local bound once to the block table is another spelling of it
+        for s_ in A.body_without_docstring(fn.node):
+            if isinstance(s_, (ast.Assign, ast.AnnAssign)) and s_.value is not None and A.unparse(s_.value) == f"{gparam}.graph":
+                tg_ = s_.targets[0] if isinstance(s_, ast.Assign) else s_.target
+                if isinstance(tg_, ast.Name) and sum(1 for x in ast.walk(fn.node) if isinstance(x, ast.Name) and x.id == tg_.id and isinstance(x.ctx, ast.Store)) == 1:
+                    gtexts |= {tg_.id, f"{tg_.id}.keys()", f"{tg_.id}.items()"}
+                    items_texts.add(f"{tg_.id}.items()")
         calls = [c for c in A.walk_no_nested(fn.node) if isinstance(c, ast.Call) and (A.dotted(c.func) or "").endswith("_find_dominators_internal")]
         if len(calls) != 1 or len(calls[0].args) != 4:
             out.append(unresolved("QUERY-5", fn.qualname, "fix-point call", where, "expected one call _find_dominators_internal(entries, nodes, preds, succs)"))
@@ -511,7 +572,7 @@ def query5(ctx) -> List[Ob]:
         E, N, P, S = [A.unparse(a) for a in calls[0].args]
         # ---- nodes
         key = "all nodes"
-        if _strip_order(calls[0].args[1]) in gtexts - {f"{gparam}.graph.items()"}:
+        if _strip_order(calls[0].args[1]) in gtexts - items_texts:
             out.append(ok("QUERY-5", fn.qualname, key, ctx.where(fn, calls[0]), N, nontrivial=False))
         else:
             out.append(bad("QUERY-5", fn.qualname, key, ctx.where(fn, calls[0]), f"the node list handed to the fix-point is {N[:50]}, not every block of the graph"))
@@ -519,7 +580,7 @@ def query5(ctx) -> List[Ob]:
         key = "edge tables"
         edge = None
         for lp in _loops(fn.node):
-            if _strip_order(lp.iter) != f"{gparam}.graph.items()" or not (isinstance(lp.target, ast.Tuple) and len(lp.target.elts) == 2):
+            if _strip_order(lp.iter) not in items_texts or not (isinstance(lp.target, ast.Tuple) and len(lp.target.elts) == 2):
                 continue
             srcv, nodev = [A.unparse(e) for e in lp.target.elts]
             for l2 in [n for n in lp.body if isinstance(n, ast.For)]:
@@ -575,6 +636,27 @@ def query5(ctx) -> List[Ob]:
                 out.append(bad("QUERY-5", fn.qualname, key, ctx.where(fn, lp), f"a node becomes a seed under '{A.unparse(gs[0].test)[:50] if gs else 'no condition'}', not exactly when it has no predecessor"))
                 break
             subject = gs[0].test.operand
+            # flag form: `seen_pred = False` at the top of the iteration, `seen_pred = True` exactly where an
+            # entry keyed by this node is put into the predecessor table - "no predecessor recorded"
+            if isinstance(subject, ast.Name):
+                fl = subject.id
+                sets_ = [s2 for s2 in A.walk_no_nested(lp) if isinstance(s2, ast.Assign) and len(s2.targets) == 1 and isinstance(s2.targets[0], ast.Name) and s2.targets[0].id == fl]
+                inits_ = [s2 for s2 in sets_ if s2 in lp.body and isinstance(s2.value, ast.Constant) and s2.value.value is False]
+                trues_ = [s2 for s2 in sets_ if isinstance(s2.value, ast.Constant) and s2.value.value is True]
+                if sets_ and len(inits_) == 1 and trues_ and len(inits_) + len(trues_) == len(sets_):
+                    def _beside_pred_insert(s2) -> bool:
+                        for par in ast.walk(lp):
+                            for fld_ in ("body", "orelse"):
+                                seq_ = getattr(par, fld_, None)
+                                if isinstance(seq_, list) and s2 in seq_:
+                                    return any(isinstance(x, ast.Expr) and isinstance(x.value, ast.Call) and isinstance(x.value.func, ast.Attribute) and x.value.func.attr == "add" and A.unparse(x.value.func.value) == f"{P}[{k}]" for x in seq_)
+                        return False
+
+                    before = lp.body.index(inits_[0]) < min(lp.body.index(z) for z in lp.body if any(t_ is y for t_ in trues_ for y in ast.walk(z)))
+                    after = A.lineno(gs[0]) > max(A.lineno(t_) for t_ in trues_)
+                    if all(_beside_pred_insert(t_) for t_ in trues_) and before and after and edge is not None and edge[0] is lp:
+                        out.append(ok("QUERY-5", fn.qualname, key, ctx.where(fn, lp), f"flag {fl}: cleared per node, set exactly where {P}[{k}] gets an entry; seed iff it stays clear"))
+                        break
             if A.unparse(subject) == f"{P}[{k}]":
                 # table form: valid only after the edge loop has filled the table
                 if edge is not None and A.lineno(lp) > A.lineno(edge[0]):
